@@ -195,8 +195,8 @@ func r04c(c *an.Ctx) {
 			sort.Strings(names)
 			c.Ob("kill|"+name, s.Call.Pos(), okCallers, "allow-listed: emergency kill at process shutdown; callers must be the signal handler only (callers: %v)", names)
 		case reconName:
-			cut, tests := ownedOnlyCut(s.Fn)
-			reach := an.ReachableCut(s.Fn, s.Call, cut)
+			as, tests := ownedAssume(s.Fn)
+			reach := an.FlowAssume(s.Fn.Blocks[0], as).Reaches(s.Call)
 			c.Ob("kill|reconciliation", s.Call.Pos(), !reach && tests > 0, "the reconciliation KILL must be unreachable for a task that is in the roster and owned (shared with C18 R18d)")
 		case "(*core/task.schedulerState).killTask":
 			// chain: killTask <- doKillTask <- doKillTasks <- {Cleanup, KillTasks}, each feeding a roster.filtered(f) list with f true only if !IsLocked
@@ -389,15 +389,25 @@ func r04e(c *an.Ctx) {
 			}
 			for _, sn := range snaps {
 				if lk.X == sn.Value() && an.CanReach(lk, store) && !an.CanReach(store, lk) {
-					// the contains==true edge returns an error
+					// on the contains==true edge the function returns a non-nil error and never reaches the registration
 					for _, r := range *lk.Referrers() {
 						if ex, ok := r.(*ssa.Extract); ok && ex.Index == 1 {
 							for _, b := range f.Blocks {
-								if an.KnownTrue(b, ex) {
-									if ret, ok := b.Instrs[len(b.Instrs)-1].(*ssa.Return); ok && len(ret.Results) == 2 && an.NonNil(ret.Results[1]) {
-										excl = true
-										lookup = lk
+								v, trueIdx, isC := an.BoolCondEdge(b)
+								if !isC || v != ssa.Value(ex) {
+									continue
+								}
+								fl := an.FlowFrom(b.Succs[trueIdx], nil)
+								rets := fl.ReachedReturns()
+								good := len(rets) > 0 && !fl.Reaches(store)
+								for _, ret := range rets {
+									if len(ret.Results) != 2 || fl.Nilness(an.RetVal(ret, 1)) != 1 {
+										good = false
 									}
+								}
+								if good {
+									excl = true
+									lookup = lk
 								}
 							}
 						}
